@@ -1,9 +1,10 @@
 """C02 - every operation computes its documented mathematical definition (DESIGN 4/C02).
 The all-Cartesian variant of each of the 82 operations (12 for rotate_euler) is proved equal to the spec function written
 from the documentation (vv/specs.py); C01 transports this to every other variant."""
-from .. import ops
+from .. import common as C
+from .. import enginea, ops
 from ..views import is_cart
-from . import enginea_prop
+from . import enginea_prop, c01
 
 
 def jobs(prop="C02", filt=""):
@@ -11,7 +12,17 @@ def jobs(prop="C02", filt=""):
 
 
 def main(argv):
+    import time
+    t0 = time.time()
+    # transport: every other variant equals the all-Cartesian one on the Cartesian view of its operands (the C01 contracts,
+    # re-discharged here under this property's label so that the definition is decided for every storage, not only x, y, z, t)
+    tres = C.pool_map(enginea.run_variant_job, c01.jobs("C01"))
+    for r in tres:
+        r["id"] = r["id"].replace("C01/", "C02/transport:", 1)
+        for o in r["obligations"]:
+            o["id"] = o["id"].replace("C01/", "C02/transport:", 1)
     return enginea_prop.run("C02", jobs(), "DESIGN 4/C02",
-                            extra_assumptions=["the float64 clause of the statement (result within a small multiple of rounding error) is not decided: rounding analysis is outside the family",
-                                               "other variants than the all-Cartesian one compute the definition by C01 (checked by ./check C01)"],
-                            functions_note="Each all-Cartesian variant is proved equal to its spec function (vv/specs.py, written from the documentation).")
+                            extra_assumptions=["the float64 clause of the statement (result within a small multiple of rounding error) is not decided: rounding analysis is outside the family"],
+                            functions_note="Each all-Cartesian variant is proved equal to its spec function (vv/specs.py, written from the documentation); every other variant is "
+                                           "proved equal to the all-Cartesian one on the Cartesian view of its operands (obligations `C02/transport:...`, the C01 contracts).",
+                            extra_results=tres, t_start=t0)
